@@ -60,13 +60,13 @@ def buffers(rep, mir, L):
     for t in ITEMS:
         for variant in ALLOWED[t]:
             h = H(mir, L); m = Machine()
-            outs = h.vm.run(new, [h.item(t)], m)
+            outs = h.vm.merge_outcomes(h.vm.run(new, [h.item(t)], m))
             if len(outs) != 1 or outs[0][1] != 'ret': bad.append(('HashMapValue::new panics', t)); continue
             (m, _, buf) = outs[0]; c = m.alloc(buf); want = []
             ok = True
             for rnd in range(2):
                 v, es = h.value(t, variant); want += es
-                o2 = h.vm.run(push, [Ref(c), v], m); n += len(o2)
+                o2 = h.vm.merge_outcomes(h.vm.run(push, [Ref(c), v], m)); n += len(o2)
                 if len(o2) != 1 or o2[0][1] != 'ret': bad.append(('push panics for a value of the declared type', t, variant, str(o2[0][2])[:100])); ok = False; break
                 m = o2[0][0]
             rep.absorb_vm(h.vm)
@@ -97,7 +97,7 @@ def _chain_storage(rep, mir, L, parity, DRAWVARS):
     types = Seq([Struct((Str(k), h.item(t))) for (k, t, v) in keys])
     pc = m.alloc(types); dc = m.alloc(Seq([Struct((Str(nm), h.item(t))) for (nm, t, vr) in DRAWVARS]))
     new = mir.method('HashMapChainStorage', None, 'new'); rec = mir.method('HashMapChainStorage', 'ChainStorage', 'record_sample'); fin = mir.method('HashMapChainStorage', 'ChainStorage', 'finalize')
-    outs = vm.run(new, [SliceRef(pc, (), 0, len(keys)), SliceRef(dc, (), 0, len(DRAWVARS))], m)
+    outs = vm.merge_outcomes(vm.run(new, [SliceRef(pc, (), 0, len(keys)), SliceRef(dc, (), 0, len(DRAWVARS))], m))
     if len(outs) != 1 or outs[0][1] != 'ret': rep.violated('C14.b HashMapChainStorage::new', 'hashmap.new', 'HashMapChainStorage::new panics: %s' % str(outs[0][2])[:200]); return
     (m, _, st) = outs[0]; sc = m.alloc(st)
     want = {k: {'warm': [], 'samp': []} for (k, t, v) in keys}; wantx = {nm: {'warm': [], 'samp': []} for (nm, t, vr) in DRAWVARS}
@@ -111,7 +111,7 @@ def _chain_storage(rep, mir, L, parity, DRAWVARS):
         for (nm, t, vr) in DRAWVARS:
             xv, xs = h.value(t, vr); wantx[nm]['warm' if tuning else 'samp'] += xs; dvals.append(Struct((Str(nm), SOME(xv))))
         info = L.make('Progress', {'draw': z3.Int('d'), 'chain': 0, 'diverging': False, 'tuning': tuning, 'step_size': h.A.fresh('eps'), 'num_steps': 3})
-        o = vm.run(rec, [Ref(sc), Ref(m.alloc(Opaque('settings'))), Seq(stats), Seq(dvals), Ref(m.alloc(info))], m)
+        o = vm.merge_outcomes(vm.run(rec, [Ref(sc), Ref(m.alloc(Opaque('settings'))), Seq(stats), Seq(dvals), Ref(m.alloc(info))], m))
         if len(o) != 1 or o[0][1] != 'ret' or o[0][2].name != 'Ok':
             rep.violated('C14.b record_sample', 'hashmap.record', 'record_sample fails for values of the declared types: %s' % str(o[0][2])[:300]); return
         m = o[0][0]
@@ -173,7 +173,7 @@ def csv_index(rep, mir, L):
             m = Machine()
             coords = Seq([Seq([Str(str(i + 1)) for i in range(sz)]) for sz in shape])
             cc = m.alloc(coords); sc = m.alloc(Seq(list(shape)))
-            try: outs = vm.run(fn, [SliceRef(cc, (), 0, rank), SliceRef(sc, (), 0, rank)], m)
+            try: outs = vm.merge_outcomes(vm.run(fn, [SliceRef(cc, (), 0, rank), SliceRef(sc, (), 0, rank)], m))
             except BoundExceeded as e:
                 # concrete inputs, recursion / loop deeper than any shape of rank <= 3 needs: the enumeration does not terminate
                 bad.append(('does not terminate (%s beyond the bound on a concrete shape)' % e, shape, '')); continue
